@@ -580,8 +580,57 @@ func (pv *Prov) Atoms(b *ssa.BasicBlock) []Atom {
 	return out
 }
 
+// indexAsContains rewrites strings.IndexAny(x, k) >= 0 (and the other spellings of "found" /
+// "not found" of the strings.Index family) as the equivalent strings.Contains* call.
+func indexAsContains(e *Expr, pol bool) (*Expr, bool, bool) {
+	if e.Op != "binop" || len(e.Args) != 2 {
+		return nil, false, false
+	}
+	call, k := e.Args[0], e.Args[1]
+	op := e.Name
+	if call.Op != "call" {
+		call, k = k, call
+		switch op {
+		case "<":
+			op = ">"
+		case "<=":
+			op = ">="
+		case ">":
+			op = "<"
+		case ">=":
+			op = "<="
+		}
+	}
+	if call.Op != "call" || k.Op != "const" || k.Const == nil || k.Const.Kind() != constant.Int {
+		return nil, false, false
+	}
+	kv, _ := constant.Int64Val(k.Const)
+	var found bool
+	switch {
+	case (op == ">=" && kv == 0) || (op == ">" && kv == -1) || (op == "!=" && kv == -1):
+		found = true
+	case (op == "<" && kv == 0) || (op == "<=" && kv == -1) || (op == "==" && kv == -1):
+		found = false
+	default:
+		return nil, false, false
+	}
+	to := map[string]string{"strings.IndexAny": "strings.ContainsAny", "strings.LastIndexAny": "strings.ContainsAny", "strings.Index": "strings.Contains", "strings.LastIndex": "strings.Contains",
+		"strings.IndexByte": "strings.ContainsRune", "strings.IndexRune": "strings.ContainsRune", "strings.LastIndexByte": "strings.ContainsRune"}[call.CalleeName()]
+	if to == "" {
+		return nil, false, false
+	}
+	ne := &Expr{Op: "call", Name: to, Args: call.Args, Val: e.Val, Type: e.Type}
+	if !found {
+		pol = !pol
+	}
+	return ne, pol, true
+}
+
 func normAtom(e *Expr, pol bool) Atom {
 	for {
+		if ne, np, ok := indexAsContains(e, pol); ok {
+			return Atom{ne, np}
+		}
 		if e.Op == "unop" && e.Name == "!" {
 			e, pol = e.Args[0], !pol
 			continue
